@@ -3,4 +3,8 @@ package checks
 var Registry = map[string]func(*Ctx) int{
 	"C15": C15,
 	"C01": C01,
+	"C03": C03,
+	"C05": C05,
+	"C09": C09,
+	"C16": C16,
 }
